@@ -5,6 +5,7 @@ from hypothesis import strategies as st
 
 from .. import plotgen
 from ..harness import qcall
+from ..harness import verbosity as harness_verbosity
 
 ID = "C03"
 LEVEL = "exploration"
@@ -57,7 +58,7 @@ def check_case(case, ctx):
         if f3_region(o) and ctx.is_open("F3"):
             ctx.exclude("F3", (plot.nlev + 1) * 2)
             continue
-        kw = dict(binary_headers=o[0], binary_shape=o[1], binary_data=o[2], boxes_coordinates=o[3], verbose=0)
+        kw = dict(binary_headers=o[0], binary_shape=o[1], binary_data=o[2], boxes_coordinates=o[3], verbose=harness_verbosity(case))
         for limit in [None] + list(range(plot.nlev)):
             for nofail in (False, True):
                 ctx.counters["constructions"] += 1
